@@ -189,12 +189,16 @@ class FluentParser(Parser):
             elif isinstance(entry, ftl.Junk):
                 start = entry.span.start
                 end = entry.span.end
+                content = entry.content
+                if not content.strip(" \t\r\n"):
+                    # white-space only junk, like a stray tab. Don't strip.
+                    content = ""
                 # strip leading whitespace
-                start += re.match("[ \t\r\n]*", entry.content).end()
+                start += re.match("[ \t\r\n]*", content).end()
                 if not only_localizable and entry.span.start < start:
                     yield Whitespace(self.ctx, (entry.span.start, start))
                 # strip trailing whitespace
-                ws, we = re.search("[ \t\r\n]*$", entry.content).span()
+                ws, we = re.search("[ \t\r\n]*$", content).span()
                 end -= we - ws
                 yield Junk(self.ctx, (start, end))
                 if not only_localizable and end < entry.span.end:
